@@ -7,7 +7,8 @@
 (*   - statements that failed, with the settings the session tracks afterwards (failed).       *)
 (* The specification recomputes the clients' requested settings and every backend session's    *)
 (* actual settings from these raw events - nothing of the proxy's synchronisation algorithm is *)
-(* assumed - and TLC evaluates the property at every exec:                                     *)
+(* assumed - and the property is the guard of every exec step (a trace that breaks it is        *)
+(* rejected at that line):                                                                      *)
 (*   NoLeakOnCleanConn  a statement on a backend session that never refused a SET runs with     *)
 (*                      exactly its client's requested settings;                                *)
 (*   (the unrestricted NoLeak is judged by the replay harness against the expectations TLC       *)
@@ -76,6 +77,7 @@ TExec == /\ IsEv("exec")
               /\ e.c \in Clients /\ e.k \in Conns
               /\ HasExactlyNames(e.ran.vars)
               /\ SettingOf(e.ran) = actual[e.k]       \* the fake's own record agrees with the replayed SETs
+              /\ (~rejected[e.k] => actual[e.k] = Effective(tracked[e.c]))     \* C20 (NoLeakOnCleanConn) as the step's guard
               /\ obs' = Ran(e.c, e.k, actual[e.k], tracked[e.c])
          /\ UNCHANGED <<tracked, actual, rejected, Others>>
 
